@@ -179,7 +179,8 @@ SplCases(a) ==
      \cup {[op |-> "FpApply", ast |-> e, a |-> a, fs |-> fs,
             E |-> [app |-> ApplyI(e, a, fs), lf |-> LinearI(e, a, fs)],
             S |-> [app |-> ApplyAbs(e, a, fs), lf |-> LinearAbs(e, a, fs)]] :
-             e \in FpExprs, fs \in {IF TRUE THEN <<Factor(g)>> ELSE <<>>}}
+             e \in FpExprs \cup (IF a.o <= 1 /\ g \in {E4, Z4} THEN {Xn(4), Xn(6)} ELSE {}),   \* every binomial row up to 6
+             fs \in {IF TRUE THEN <<Factor(g)>> ELSE <<>>}}
      \cup (IF a.o <= 2 /\ IntGrid(g) THEN
            {[op |-> "FpBF", e1 |-> e1, e2 |-> e2, a |-> a, b |-> b, fs |-> <<Factor(g)>>,
              E |-> BilinearI(e1, e2, a, b, <<Factor(g)>>), S |-> BilinearAbs(e1, e2, a, b, <<Factor(g)>>)] :
